@@ -500,3 +500,74 @@ func expParseRule(R string) RuleFunc {
 		c.Check(uses, R, "setExp:ParseInt", c.P.Pos(d.Decl.Pos()), "setExp parses the exponent with Bytes.ParseInt", "the exponent is parsed by something else than the module's decimal parser (whose rejection causes are checked by C13.parse)")
 	}
 }
+
+// retStateRule: after a value was closed, the return state pushed for an annotation / comment is the state AFTER the value.
+func retStateRule(R string) RuleFunc {
+	return func(c *core.Ctx) {
+		c.Rule(R, "on the per-byte model of the schema scanner: a transition that closes a value (emits LiteralEnd, TypesShortcutEnd, MixedValueEnd or KeyShortcutEnd) and in the same step opens an annotation or comment (pushes a return state) pushes the state that FOLLOWS the value (a constant state such as stateAfterObjectValue / stateEndTop), not the value's own state and not the unresolved current state: the value must be finished before the return point is taken, otherwise `@T// note` (no blank) returns into the shortcut state after the note and is rejected while `@T // note` is accepted")
+		c.Floor(R, 10)
+		m := buildScanModel(c, "notations/jschema/scanner")
+		n := 0
+		for _, name := range m.names {
+			seen := map[string]bool{}
+			for b := 0; b < 256; b++ {
+				for _, p := range m.rows[name][b].paths {
+					if p.kind != "return" || len(p.pushes) == 0 {
+						continue
+					}
+					closes := false
+					for _, f := range p.finds {
+						switch f {
+						case "LiteralEnd", "TypesShortcutEnd", "MixedValueEnd", "KeyShortcutEnd":
+							closes = true
+						}
+					}
+					if !closes {
+						continue
+					}
+					for _, ps := range p.pushes {
+						k := name + ">" + ps
+						if seen[k] {
+							continue
+						}
+						seen[k] = true
+						n++
+						ok := ps != "<dyn>" && ps != name
+						c.Check(ok, R, core.F("%s:push(%s)", name, ps), c.P.Pos(m.states[name].Pos()), core.F("state %s closes a value and pushes %s", name, ps), "the return state pushed while closing the value is the value's own (stale) state: after the annotation the scanner is back inside the finished value")
+					}
+				}
+			}
+		}
+		if n == 0 {
+			c.Bad(R, "transitions", "-", "value-closing transitions that push", "undecided: none found")
+		}
+	}
+}
+
+// sameFileRule: every operation of a schema object scans the same text.
+func sameFileRule(R string) RuleFunc {
+	return func(c *core.Ctx) {
+		c.Rule(R, "every scanner the JSchema object creates (load behind Check/GetAST/Example/AddType, computeLen behind Len) is created from the object's own file `s.File`, unmodified: if one entry point scanned a transformed copy (a stripped byte-order mark, a trimmed text) Check() and Len() would disagree on which texts are schemas and offsets would refer to different texts")
+		c.Floor(R, 2)
+		n := 0
+		for _, cs := range c.P.Calls() {
+			if core.Rel(cs.Pkg.PkgPath) != "notations/jschema" || cs.Decl == nil || cs.Decl.Recv == nil {
+				continue
+			}
+			if core.FullName(core.Callee(cs.Pkg, cs.Call)) != "notations/jschema/scanner.New" || len(cs.Call.Args) == 0 {
+				continue
+			}
+			fn := core.DeclName(cs.Pkg, cs.Decl)
+			if !strings.Contains(fn, "JSchema)") {
+				continue
+			}
+			n++
+			arg := core.ExprStr(cs.Call.Args[0])
+			recv := ""
+			if len(cs.Decl.Recv.List) == 1 && len(cs.Decl.Recv.List[0].Names) == 1 {
+				recv = cs.Decl.Recv.List[0].Names[0].Name
+			}
+			c.Check(arg == recv+".File", R, core.F("%s:scanner.New#%d", fn, n), c.P.Pos(cs.Call.Pos()), "scanner.New("+arg+", …) in "+fn, "the scanner reads something else than the object's own file: this entry point and its siblings no longer scan the same text")
+		}
+	}
+}
